@@ -788,7 +788,7 @@ func runC15(env *core.Env) {
 		}
 	}
 	// (d,e) proto elements: every precision enum x offsets x values
-	tzs := []string{"Z", "UTC", "+05:30", "-11:00", "+14:00", ""}
+	tzs := []string{"Z", "UTC", "+05:30", "-11:00", "+14:00", "-03:30", "-00:30", "-09:45", ""}
 	for k := 0; k < env.Size(60, 4000); k++ {
 		days := int64(rng.Intn(200000)) - 100000 // ± 270 years around 1970
 		if k%7 == 0 {
@@ -861,7 +861,7 @@ func c15TemporalTexts(env *core.Env, rng *core.Rng) [][2]string {
 		times = append(times, [3]int{rng.Intn(24), rng.Intn(60), rng.Intn(60)})
 	}
 	fracs := []string{"", ".5", ".12", ".123", ".000", ".1234", ".12345", ".123456", ".999", ".001", ".0005"}
-	offs := []string{"", "Z", "+05:30", "-11:00", "+00:00", "+14:00"}
+	offs := []string{"", "Z", "+05:30", "-11:00", "+00:00", "+14:00", "-03:30", "-00:30"}
 	for _, d := range dates {
 		out = append(out, [2]string{"Date", fmt.Sprintf("%04d", d[0])}, [2]string{"Date", fmt.Sprintf("%04d-%02d", d[0], d[1])}, [2]string{"Date", fmt.Sprintf("%04d-%02d-%02d", d[0], d[1], d[2])})
 		out = append(out, [2]string{"DateTime", fmt.Sprintf("%04dT", d[0])}, [2]string{"DateTime", fmt.Sprintf("%04d-%02dT", d[0], d[1])}, [2]string{"DateTime", fmt.Sprintf("%04d-%02d-%02dT", d[0], d[1], d[2])})
